@@ -86,7 +86,9 @@ def parse_term(text, decls):
         d2[h.name()] = h
         try:
             res = z3.parse_smt2_string(f"(assert ({h.name()} {text}))", decls=d2, sorts={"PyStr": ops.StrSort})
-            return res[0].arg(0)
+            if len(res) == 1:
+                return res[0].arg(0)
+            last = "empty parse result"
         except z3.Z3Exception as e:
             last = e
     raise ValueError(f"cannot parse spec term: {last}")
